@@ -88,7 +88,7 @@ PROPS = {
     "C12": {
         "level": "exploration",
         "assumptions": TRUST,
-        "stages": [{"driver": "hist", "stage": "seq", "flavour": "asan", "budget": {"quick": 5, "thorough": 6}},
+        "stages": [{"driver": "hist", "stage": "seq", "flavour": "asan", "budget": {"quick": 4, "thorough": 5}},
                    {"driver": "hist", "stage": "random", "flavour": "asan", "budget": {"quick": 200000, "thorough": 3000000}},
                    {"driver": "hist", "stage": "growth", "flavour": "asan"}],
     },
@@ -121,6 +121,7 @@ PROPS = {
         "assumptions": TRUST,
         "stages": [{"driver": "utf8", "stage": "bytes", "flavour": "asan", "budget": {"quick": 3, "thorough": 3}},
                    {"driver": "utf8", "stage": "bytes", "flavour": "plain-O2", "budget": {"thorough": 4}, "budget2": {"thorough": 4}, "tiers": ("thorough",)},
+                   {"driver": "utf8", "stage": "alpha", "flavour": "asan"},
                    {"driver": "utf8", "stage": "faults", "flavour": "asan"}],
     },
     "C17": {
